@@ -16,11 +16,18 @@ for lg in glob.glob('/var/tmp/confirm*.log'):
         if line.startswith('RESULT %s/%s ' % (pid, v)):
             conf = line.strip()
 det = ''
-for lg in sorted(glob.glob('/var/tmp/seedtest*.log')):
+logs = sorted(glob.glob('/var/tmp/seedtest[1-9]*.log')) + ['/var/tmp/seedtest0.log']
+parts = []
+for lg in logs:
+    if not os.path.exists(lg):
+        continue
     txt = open(lg).read()
-    m = re.search(r'=== %s/%s\n(.*?)(?:\n===|\Z)' % (pid, v), txt, re.S)
-    if m:
-        det = m.group(1).strip()
+    for m in re.finditer(r'=== %s/%s\n(.*?)(?=\n===|\Z)' % (pid, v), txt, re.S):
+        body = '\n'.join(l for l in m.group(1).strip().split('\n')
+                          if l.startswith(('VIOLATION', 'C', 'first', 'after', 'the ', 'error', 'patch')))
+        if body:
+            parts.append(('[notes] ' if lg.endswith('seedtest0.log') else '[run] ') + body)
+det = '\n'.join(parts)
 meta = {
     'property': pid,
     'variant': v,
